@@ -21,6 +21,12 @@ def _kwargs(c: ast.Call) -> dict[str, str]:
 
 
 # ================================================================================================ C16
+# calls that are the vocabulary of the pathlib rules stay calls; helpers somebody extracts inside pathlib.py are followed
+PATHLIB_VOCAB = {'glob:globmatch', 'glob:iglob', 'glob:glob', 'glob:globfilter', 'glob:translate', 'glob:compile', 'glob:escape', 'glob:is_magic',
+                 'pathlib:PurePath._translate_path', 'pathlib:PurePath._translate_flags', 'pathlib:PurePath.globmatch', 'pathlib:PurePath.match',
+                 'pathlib:PurePath.full_match', 'pathlib:Path.glob', 'pathlib:Path.rglob', 'pathlib:Path._translate_flags', 'pathlib:Path._translate_path'}
+
+
 def rule_pathlib_forwarding(ctx: Ctx, rule: str) -> None:
     ctx.text(rule, 'composition and forwarding of the pathlib methods, read off their decision tables with call events (argument '
                    '*values*, so locals, keyword/positional spelling and statement layout are free): match = globmatch(flags | '
@@ -45,7 +51,7 @@ def rule_pathlib_forwarding(ctx: Ctx, rule: str) -> None:
     for qn, cls, callee, what in (('PurePath.match', 'PurePath', 'pathlib:PurePath.globmatch', 'self.globmatch'),
                                   ('Path.rglob', 'PosixPath', 'pathlib:Path.glob', 'self.glob')):
         fi = repo.func('pathlib', qn)
-        ev, paths = api_table(repo, 'pathlib', qn, cls)
+        ev, paths = api_table(repo, 'pathlib', qn, cls, inline=True, no_inline=PATHLIB_VOCAB)
         bad = []
         for p in paths:
             cs = p.calls_to(callee)
@@ -71,7 +77,7 @@ def rule_pathlib_forwarding(ctx: Ctx, rule: str) -> None:
     sig = {}
     for qn in ('PurePath.globmatch', 'PurePath.full_match'):
         fi = repo.func('pathlib', qn)
-        ev, paths = api_table(repo, 'pathlib', qn, 'PurePath')
+        ev, paths = api_table(repo, 'pathlib', qn, 'PurePath', inline=True, no_inline=PATHLIB_VOCAB)
         bad = []
         for p in paths:
             cs = p.calls_to('glob:globmatch')
@@ -107,7 +113,7 @@ def rule_pathlib_forwarding(ctx: Ctx, rule: str) -> None:
         if not passes_through(v, 'flags', NA, dec & ~NA):
             return Opaque('TF-of-something-else')
         return BV('tf', 0, 0)
-    ev, paths = api_table(repo, 'pathlib', 'Path.glob', 'PosixPath',
+    ev, paths = api_table(repo, 'pathlib', 'Path.glob', 'PosixPath', inline=True, no_inline=PATHLIB_VOCAB,
                           call_models={'pathlib:PurePath._translate_flags': tf_model, 'pathlib:Path._translate_flags': tf_model})
     bad_d, bad_y, bad_f = [], [], []
     for p in paths:
